@@ -43,13 +43,16 @@ class PboGen:
             # 'mod', 'z' and 'addons' repeat pieces of the prefixes below: an entry may be called like the prefix it lives under
             parts = [r.choice(['a', 'fn_x', 'data', 'sub', 'Config', 'init', 'b2', 'mod', 'z', 'addons', 'x']) for _ in range(1 + r.below(3))]
             n = '\\'.join(parts) + r.choice(['.sqf', '.bin', '.hpp', '.txt', ''])
+            if r.chance(1, 12):
+                # a long name: 250-320 bytes (strings are read in chunks)
+                n = 'long' + 'n' * (246 + r.below(70)) + n
             if n not in used:
                 used.add(n)
                 return n.encode()
 
     def content(self):
         r = self.r
-        k = r.weighted([('empty', 2), ('text', 4), ('binary', 3), ('big', 1), ('one', 1)])
+        k = r.weighted([('empty', 2), ('text', 4), ('binary', 3), ('big', 1), ('one', 1), ('bom', 2)])
         self.note('content:' + k)
         if k == 'empty':
             return b''
@@ -57,6 +60,9 @@ class PboGen:
             return r.choice([b'1 + 1', b'diag_log "x";\n', b'class A {};', b'#define X 1\nX'])
         if k == 'one':
             return bytes([r.below(256)])
+        if k == 'bom':
+            # bytes that look like a byte order mark are content like any other
+            return r.choice([b'\xef\xbb\xbf', b'\xfe\xff', b'\xff\xfe', b'\xff\xfe\x00\x00', b'\x00\x00\xfe\xff', b'\x2b\x2f\x76']) + r.choice([b'', b'abc', b'\x00\x01', b'class A {};'])
         n = 3 + r.below(40) if k == 'binary' else 300 + r.below(700)
         return bytes(r.below(256) for _ in range(n))
 
@@ -66,7 +72,10 @@ class PboGen:
         if r.chance(5, 6):
             props.append((b'prefix', r.choice([b'x\\addons\\mod', b'mod', b'z\\a'])))
         for _ in range(r.below(3)):
-            props.append((r.choice([b'version', b'author', b'product']), r.choice([b'1.0', b'', b'some text'])))
+            props.append((r.choice([b'version', b'author', b'product']), r.choice([b'1.0', b'', b'some text', b'd' * (250 + r.below(400))])))
+        if props and r.chance(1, 3):
+            r2 = r.below(len(props) + 1)
+            props.insert(r2, (r.choice([b'description', b'k' * 256, b'note']), r.choice([b'v' * 255, b'v' * 256, b'v' * 257, b'w' * 600, b'short'])))
         used = set()
         items = [{'name': self.name(used), 'content': self.content(), 'timestamp': r.below(1 << 31), 'method': 0} for _ in range(r.below(6))]
         if items and r.chance(1, 4):
